@@ -449,6 +449,18 @@ impl Scenario for Roundtrip {
                     1 => rs.below(70000),
                     _ => rs.below(5000),
                 };
+                if Rng::derive(s, "far").chance(1, 8) {
+                    // "every preceding archive state": the archive does not start at offset 0 but around / beyond
+                    // 4 GiB on the sparse disk, where arithmetic narrower than 64 bits goes wrong for alignments
+                    // that are not powers of two
+                    let mut rf = Rng::derive(s, "far2");
+                    start_pos = match rf.below(4) {
+                        0 => (1u64 << 32) - rf.below(70_000),
+                        1 => (1u64 << 32) + rf.below(1 << 20),
+                        2 => (1u64 << 40) + rf.below(1 << 20),
+                        _ => (1u64 << 33) - 1 - rf.below(100),
+                    };
+                }
                 let mut ops = vec![];
                 let mut used = vec![];
                 for _ in 0..r.range(1, 5) {
@@ -466,7 +478,11 @@ impl Scenario for Roundtrip {
                             gen_file_body(&mut r, &cfg, &mut ops);
                         }
                         5..=7 => {
-                            let mx = if r.chance(1, 10) { 65535 } else { 3000 };
+                            // beyond 4 GiB the central record needs room for a ZIP64 offset record next to the user's
+                            // data: near-maximal extra data is then refused at finish(), which the model (which does not
+                            // track offsets) cannot predict - kept out of the far-start cases by construction
+                            let far = start_pos >= (1u64 << 32) - 200_000;
+                            let mx = if !far && r.chance(1, 10) { 65535 } else { 3000 };
                             // malformed / reserved records must be refused (truncated tail, ZIP64 id, reserved ids)
                             let bad_extra = |r: &mut Rng| -> Vec<u8> {
                                 let mut v = gen_extra_valid(r, 60);
@@ -481,12 +497,12 @@ impl Scenario for Roundtrip {
                                 }
                                 v
                             };
-                            let local = if r.chance(1, 12) { big_extra(&mut r) } else if r.chance(1, 10) { bad_extra(&mut r) } else { gen_extra_valid(&mut r, mx) };
+                            let local = if r.chance(1, 12) && !far { big_extra(&mut r) } else if r.chance(1, 10) { bad_extra(&mut r) } else { gen_extra_valid(&mut r, mx) };
                             ops.push(Op::StartExtra { name, o });
                             ops.push(Op::Write { c: Content::Lit(Hex(local.clone())), split: gen_split(&mut r, local.len() as u64) });
                             if r.chance(1, 2) {
                                 ops.push(Op::EndLocal);
-                                let central = if r.chance(1, 12) { big_extra(&mut r) } else if r.chance(1, 8) { bad_extra(&mut r) } else { gen_extra_valid(&mut r, mx) };
+                                let central = if r.chance(1, 12) && !far { big_extra(&mut r) } else if r.chance(1, 8) { bad_extra(&mut r) } else { gen_extra_valid(&mut r, mx) };
                                 ops.push(Op::Write { c: Content::Lit(Hex(central)), split: vec![] });
                             }
                             ops.push(Op::EndExtra);
